@@ -116,6 +116,9 @@ def canon(v, depth=0):
         return {"set": sorted(str(x) for x in v)}
     if isinstance(v, Element):
         return {"kind": "elem", "cls": type(v).__name__}
+    if type(v).__name__ == "Dofs":
+        return {"kind": "dofsobj", "N": int(v.N),
+                "element_dofs": arr(v.element_dofs)}
     if isinstance(v, BaseException):
         return {"raises": type(v).__name__}
     return {"obj": type(v).__name__}
